@@ -635,7 +635,13 @@ impl Mon {
                 }
                 if let Some(t) = post.log.term(p.matched) {
                     let d = &self.dur[(p.id - 1) as usize];
-                    if !(d.ents.contains(&(p.matched, t)) || p.matched <= d.snap) {
+                    // an acknowledgement that was still queued when a leader of a higher term rewrote the entry
+                    // (before it was ever written) reaches the old leader stamped with the old term; it is
+                    // harmless: the follower did not vote for that newer leader while it held the entry, so
+                    // the old leader cannot complete a quorum with it (same rule as C06's superseded acks)
+                    let fdisk = &nodes[(p.id - 1) as usize].disk;
+                    let superseded = fdisk.term_of(p.matched.min(fdisk.last_index())).map_or(false, |t2| t2 > t);
+                    if !(d.ents.contains(&(p.matched, t)) || p.matched <= d.snap || superseded) {
                         let (f, mt) = (p.id, p.matched);
                         self.violation(
                             "C04",
